@@ -672,7 +672,8 @@ pub fn rechunk_sequences(
         chunked_sequences.push(sequence);
     }
 
-    if segment_iter.peek().is_some() {
+    // Segments that are left over are only an error if they hold row ids
+    if segment_iter.any(|segment| !segment.is_empty()) {
         return Err(too_many_segments_error(
             chunked_sequences.len(),
             total_chunks,
